@@ -746,7 +746,7 @@ impl Scenario for CrashScenario {
         match self.mode {
             Mode::C07 => "producer workloads (1-3 threads, appends and batches, all fsync schedules, both backends, 1-2 working incarnations) run once fault-free to number the mutating I/O events, then re-run with the process terminated before event k (all k when <=60 events, else 60 sampled), plus torn mmap stores and arbitrary completed subsets of io_uring batches; a fresh process recovers and drains every topic; oracle: reopen Ok, every acknowledged entry present, byte-identical, in an order consistent with program and real-time order, extras only from operations in flight; distinct = (plan, crash point, fault variant); non-trivial = the fault fired".into(),
             Mode::C08 => "one batch (1..2000 entries over 1..4 blocks) in flight: crash before every I/O event of the batch, after every sampled subset of its io_uring writes (none, all, prefixes, suffixes, singles, random), and between/inside the sequential stores of the mmap path; oracle: the recovered topic contains all or none of the batch's entries".into(),
-            Mode::C09 => "appends, read_next and batch reads (StrictlyAtOnce and AtLeastOnce{1..8}), 1-2 working incarnations so that block ids are reassigned by an earlier recovery, optionally a post-crash working incarnation with producers and consumers, and rotation-race workloads (one producer-and-consumer thread per topic, slow-thread + torn-store faults); crash before every sampled I/O event (index tmp write, fsync, rename are separate events); oracle, applied at every restart boundary: Strict resumes exactly after the last entry whose consuming read returned (the read in flight may go either way), AtLeastOnce never resumes later and read_next-only consumption redelivers at most persist_every".into(),
+            Mode::C09 => "appends, read_next and batch reads (StrictlyAtOnce and AtLeastOnce{1..8}), 1-2 working incarnations so that block ids are reassigned by an earlier recovery, optionally a post-crash working incarnation with producers and consumers, and rotation-race workloads (one producer-and-consumer thread per topic, slow-thread + torn-store faults); crash before every sampled I/O event (index tmp write, fsync, rename are separate events), in 30% of the post-crash variants followed by a second crash at a seeded I/O event of the recovering incarnation (inside its recovery or its operations); oracle, applied at every restart boundary: Strict resumes exactly after the last entry whose consuming read returned (the read in flight may go either way), AtLeastOnce never resumes later and read_next-only consumption redelivers at most persist_every".into(),
         }
     }
     fn plan_for(&self, seed_r: u64) -> Option<Plan> {
